@@ -354,7 +354,14 @@ impl GenCfg {
                 w[K::RemoveSubtree as usize] = w[K::RemoveSubtree as usize].min(1);
             }
             if shape == 2 && max_live >= 600 {
+                // let one path grow past 512 / 1024 levels: nothing that cuts it
                 w[K::AppendValue as usize] *= 3;
+                w[K::RemoveSubtree as usize] = 0;
+                w[K::Detach as usize] = 0;
+                w[K::Remove as usize] = w[K::Remove as usize].min(1);
+                w[K::Clear as usize] = 0;
+                w[K::TreeMacro as usize] = 0;
+                w[K::New as usize] = w[K::New as usize].min(2);
             }
             if shape == 2 {
                 // a deep chain is cut by every move or detach on its path: let it grow first
